@@ -392,10 +392,13 @@ func (m *ibtpModel) verifyViaQueries(h uint64) {
 	}
 	rcs := r.viewCall(q...)
 	ics := map[string]*pb.Interchain{}
+	noRecord := map[string]bool{}
 	for i, sv := range svcs {
 		ic := &pb.Interchain{}
 		if i < len(rcs) && rcs[i] != nil && rcs[i].Status == pb.Receipt_SUCCESS {
 			_ = ic.Unmarshal(rcs[i].Ret)
+		} else if strings.HasSuffix(sv, ":ghost") || strings.HasSuffix(sv, ":sl") {
+			noRecord[sv] = true // a service that was never registered has no record to mirror anything on
 		}
 		ics[sv] = ic
 	}
@@ -412,6 +415,9 @@ func (m *ibtpModel) verifyViaQueries(h uint64) {
 		if g := src.ReceiptCounter[p.to]; g != p.rcptAccepted {
 			s.vio("C02", "counter", "receipt", "after block %d: receipt counter of %s towards %s is %d, finalised receipts %d", h, p.from, p.to, g, p.rcptAccepted)
 			p.rcptAccepted, p.rcptCursor = g, g
+		}
+		if noRecord[p.to] {
+			continue
 		}
 		if g := dst.SourceInterchainCounter[p.from]; g != p.reqAccepted {
 			s.vio("C02", "counter", "source-interchain", "after block %d: destination-side counter of %s for %s is %d, accepted requests %d", h, p.to, p.from, g, p.reqAccepted)
